@@ -57,6 +57,17 @@ fn scene(t: &Target, faults: &[Fault]) -> String {
         .map(|f| {
             let pos = posclass(t, f.q());
             let mut class = f.class_tag();
+            if let Fault::Resp { q, mv: Move::ReplayGenuine { parent, src, alongside, .. } } = f {
+                let probe = Script::new(t.hier.clone(), vec![]);
+                let query = Query::new(name_of(q), RecordType::from(q.1));
+                if let Some(zq) = t.hier.h.zone_for(&query.name, query.query_type) {
+                    let zs = if *parent { t.hier.h.deepest(&t.hier.h.zones[zq].origin.base_name()).unwrap_or(zq) } else { zq };
+                    if let Some((_, st)) = probe.reown_sources(zs).get(*src as usize) {
+                        let tc = if *st == query.query_type { "same-type" } else if matches!(st, RecordType::NSEC | RecordType::NSEC3) { "NSEC*" } else { "other-type" };
+                        class = format!("replay-genuine-rrset-of-other-owner({tc},{})", if *alongside { "alongside" } else { "instead" });
+                    }
+                }
+            }
             if let Fault::Resp { q, mv: Move::Reowned { parent, src, target, .. } } = f {
                 // what kind of genuine RRset was re-owned
                 let probe = Script::new(t.hier.clone(), vec![]);
@@ -165,7 +176,7 @@ fn exec(t: &Target, faults: &[Fault], rt: &tokio::runtime::Runtime, l: &mut Loca
         // of the same owner) need no fault scene
         let sc = {
             let qk = key_of(&t.q.0, t.q.1);
-            let payload = |x: &Fault| matches!(x, Fault::Resp { mv: Move::ForgeUnsigned | Move::ForgeSignedBy(_) | Move::ReplayWildcard { .. } | Move::Reorder { .. } | Move::AugmentDnskeySet | Move::StripAnswer | Move::StripAuthority | Move::StripBoth, .. });
+            let payload = |x: &Fault| matches!(x, Fault::Resp { mv: Move::ForgeUnsigned | Move::ForgeSignedBy(_) | Move::ReplayWildcard { .. } | Move::Reorder { .. } | Move::AugmentDnskeySet { .. } | Move::StripAnswer | Move::StripAuthority | Move::StripBoth, .. });
             match faults {
                 // general L2 x L2 pair: the move at the validator's own query only has to produce
                 // the claimed (positive / negative) shape, the decisive move is the other one
@@ -247,6 +258,11 @@ fn main() {
             });
             ctx.finish(false);
         }
+        if std::env::var("C07_REPLAY_TRACE").is_ok() {
+            let r = run_case(&t.hier, &t.q, &faults, &rt);
+            eprintln!("upstream queries in order: {:?}", r.log);
+            eprintln!("outcome: {:?}", r.outcome);
+        }
         ctx.with_local(|l| {
             let (_, clauses) = exec(&t, &faults, &rt, l, None);
             eprintln!("replayed: clauses {clauses:?}");
@@ -263,11 +279,14 @@ fn main() {
          a matching supported DS = signed zone, supported but none matching = nothing may validate, only unsupported = insecure. Positions = closure of the upstream queries \
          observed in the honest run and under every single fault. (L1) at every record of every position: drop, flip one RDATA bit, \
          replace RDATA, change owner, raise TTL, strip the RRset's RRSIGs, re-sign the RRset with {key of another secure zone that does \
-         not enclose the owner (sibling / child), ancestor key [logged only], attacker key + injected DNSKEY, attacker zone atk., key of \
+         not enclose the owner (sibling / child), the REAL key of an owned child / sibling zone with the TARGET zone named as signer (that \
+         zone's genuine signed DNSKEY RRset riding along in the target's DNSKEY answer), ancestor key [logged only], attacker key + injected DNSKEY, attacker zone atk., key of \
          an insecure zone, attacker key with the zone key's algorithm and key tag}; (L2) at every position: forge-unsigned, forge-signed-by \
          K, forge unsupported-algorithm DS, replay the zone's genuine wildcard RRset for the query name, strip answer/authority/both, \
          serve the records / the RRSIGs of an RRset in another order (all orders up to 3 records), \
-         INJECT ALONGSIDE the intact response one attacker record {DS for the attacker key, attacker DNSKEY, NS, A} under {own owner, \
+         replay a GENUINE signed RRset of another owner (own owner kept; quick: the RRsets of the queried type, e.g. the sibling \
+         delegations' DS RRsets at a DS position) instead of / next to the answer, augment the DNSKEY RRset with the REAL key of an owned \
+         sibling / child zone, INJECT ALONGSIDE the intact response one attacker record {DS for the attacker key, attacker DNSKEY, NS, A} under {own owner, \
          stray owner, parent apex, sibling} x {unsigned, attacker-signed} x {answer, authority}, augment the DNSKEY RRset with the \
          attacker key + its signature over the whole set, \
          replace the response by a GENUINE signed RRset of the answering zone or its parent, re-owned (all records and RRSIGs, RDATA \
@@ -502,7 +521,7 @@ fn main() {
             .filter(|f| *f.q() == qk)
             // (additive moves - inject alongside, re-owned RRsets put into the answer section - are no
             // denial-shaped first moves; they take part in the general pairs as second moves)
-            .filter(|f| (general && matches!(f, Fault::Resp { .. }) && !matches!(f, Fault::Resp { mv: Move::InjectAlongside { .. } | Move::Reowned { answer: true, .. }, .. })) || matches!(f, Fault::Resp { mv: Move::ForgeUnsigned | Move::ForgeSignedBy(_) | Move::ReplayWildcard { .. } | Move::Reorder { .. } | Move::AugmentDnskeySet | Move::StripAnswer | Move::StripAuthority | Move::StripBoth, .. }))
+            .filter(|f| (general && matches!(f, Fault::Resp { .. }) && !matches!(f, Fault::Resp { mv: Move::InjectAlongside { .. } | Move::ReplayGenuine { .. } | Move::Reowned { answer: true, .. }, .. })) || matches!(f, Fault::Resp { mv: Move::ForgeUnsigned | Move::ForgeSignedBy(_) | Move::ReplayWildcard { .. } | Move::Reorder { .. } | Move::AugmentDnskeySet { .. } | Move::StripAnswer | Move::StripAuthority | Move::StripBoth, .. }))
             .collect();
         for a in firsts {
             for b in t.singles.iter().filter(|f| *f.q() != qk) {
@@ -512,7 +531,7 @@ fn main() {
                     Fault::Rec { .. } => thorough && !ds_mix,
                 };
                 // the general pairs are L2 x L2: a non-payload first move is not paired with L1 faults
-                let payload = matches!(a, Fault::Resp { mv: Move::ForgeUnsigned | Move::ForgeSignedBy(_) | Move::ReplayWildcard { .. } | Move::Reorder { .. } | Move::AugmentDnskeySet | Move::StripAnswer | Move::StripAuthority | Move::StripBoth, .. });
+                let payload = matches!(a, Fault::Resp { mv: Move::ForgeUnsigned | Move::ForgeSignedBy(_) | Move::ReplayWildcard { .. } | Move::Reorder { .. } | Move::AugmentDnskeySet { .. } | Move::StripAnswer | Move::StripAuthority | Move::StripBoth, .. });
                 let ok = ok && (payload || matches!(b, Fault::Resp { .. }));
                 if ok {
                     pairs.push((ti, a.clone(), b.clone()));
@@ -555,16 +574,16 @@ fn main() {
             continue;
         }
         let qk = key_of(&t.q.0, t.q.1);
-        let firsts: Vec<&Fault> = t.singles.iter().filter(|f| *f.q() == qk && matches!(f, Fault::Resp { mv: Move::ForgeSignedBy(faults::KeyChoice::AttackerSameZone), .. })).collect();
+        let firsts: Vec<&Fault> = t.singles.iter().filter(|f| *f.q() == qk && matches!(f, Fault::Resp { mv: Move::ForgeSignedBy(faults::KeyChoice::AttackerSameZone | faults::KeyChoice::OwnedSiblingZoneKeyClaimingTarget | faults::KeyChoice::OwnedChildZoneKeyClaimingTarget), .. })).collect();
         let keys: Vec<&Fault> = t
             .singles
             .iter()
-            .filter(|f| *f.q() != qk && f.q().1 == u16::from(RecordType::DNSKEY) && matches!(f, Fault::Resp { mv: Move::AugmentDnskeySet | Move::ForgeSignedBy(faults::KeyChoice::AttackerSameZone), .. }))
+            .filter(|f| *f.q() != qk && f.q().1 == u16::from(RecordType::DNSKEY) && matches!(f, Fault::Resp { mv: Move::AugmentDnskeySet { .. } | Move::ForgeSignedBy(faults::KeyChoice::AttackerSameZone), .. }))
             .collect();
         let dss: Vec<&Fault> = t
             .singles
             .iter()
-            .filter(|f| *f.q() != qk && f.q().1 == u16::from(RecordType::DS) && matches!(f, Fault::Resp { mv: Move::InjectAlongside { what: RecordType::DS, .. }, .. }))
+            .filter(|f| *f.q() != qk && f.q().1 == u16::from(RecordType::DS) && matches!(f, Fault::Resp { mv: Move::InjectAlongside { what: RecordType::DS, .. } | Move::ReplayGenuine { answer: true, .. }, .. }))
             .collect();
         for a in &firsts {
             for b in &keys {
